@@ -21,18 +21,21 @@ template <class View> std::vector<long> flat(View const& v) {
     return r;
 }
 template <class Img> void paint(Img& img, vt::Rng& rng) {
-    for (int y = 0; y < img.height(); ++y) for (int x = 0; x < img.width(); ++x) { typename Img::value_type p; gil::static_generate(p, [&]() { return (typename gil::channel_type<Img>::type)(1 + rng.below(250)); }); gil::view(img)(x, y) = p; }
+    for (int y = 0; y < img.height(); ++y) for (int x = 0; x < img.width(); ++x) { typename Img::value_type p;
+        gil::static_for_each(p, [&](auto&& ch) { using C = std::decay_t<decltype(ch)>; long mx = (long)gil::channel_traits<C>::max_value();
+            ch = static_cast<typename gil::channel_traits<C>::value_type>((1 + (long)rng.below(250)) % (mx + 1)); });
+        gil::view(img)(x, y) = p; }
 }
 template <class S, class D> void emit(const char* how, const char* st, const char* dt, int w, int h, int sa, int da, S const& s, D& d) {
     std::vector<long> sp = flat(gil::const_view(s)), dp = flat(gil::const_view(d));
     bool eq = false; if constexpr (std::is_same<S, D>::value) eq = (s == d); else eq = gil::equal_pixels(gil::const_view(s), gil::const_view(d)) && s.dimensions() == d.dimensions();
     // deep: a write to the copy is not seen through the source
     bool alias = false;
-    if (d.width() > 0 && d.height() > 0) { auto before = flat(gil::const_view(s)); auto p = gil::view(d)(0, 0); gil::semantic_at_c<0>(p) = (typename gil::channel_type<D>::type)(gil::semantic_at_c<0>(p) ^ 0x55); gil::view(d)(0, 0) = p; alias = flat(gil::const_view(s)) != before; }
+    if (d.width() > 0 && d.height() > 0) { auto before = flat(gil::const_view(s)); auto p = gil::view(d)(0, 0); { auto&& c = gil::semantic_at_c<0>(p); using C = std::decay_t<decltype(c)>; c = static_cast<typename gil::channel_traits<C>::value_type>((long)c ^ 1); } gil::view(d)(0, 0) = p; alias = flat(gil::const_view(s)) != before; }
     J("CopyEq").str("how", how).str("src", st).str("dst", dt).num("w", w).num("h", h).num("salign", sa).num("dalign", da).num("dw", d.width()).num("dh", d.height())
         .arr("sp", sp).arr("dp", dp).boolean("eq", eq).boolean("alias", alias).emit();
 }
-template <class S, class D> void pair(const char* st, const char* dt) {
+template <class S, class D, bool MutView = false> void pair(const char* st, const char* dt) {
     static const int dims[][2] = {{0, 0}, {1, 1}, {5, 4}, {6, 3}, {3, 1}, {1, 5}, {7, 2}};
     vt::Rng rng(A->seed * 19 + 3);
     for (auto& wh : dims) for (int sa : {0, 8, 4}) for (int da : {0, 8, 16}) {
@@ -41,7 +44,10 @@ template <class S, class D> void pair(const char* st, const char* dt) {
         S s(w, h, (std::size_t)sa); paint(s, rng);
         if constexpr (std::is_same<S, D>::value) { D d(s); emit("copy-ctor", st, dt, w, h, sa, sa, s, d); }
         else { D d(s); emit("convert-ctor", st, dt, w, h, sa, sa, s, d); }
-        { D d(gil::const_view(s), (std::size_t)da); emit("view-ctor", st, dt, w, h, sa, da, s, d); }
+        // (constructing a bit-aligned image from a CONST view of one does not compile on this tree: the proxy reference of the source is
+        //  passed to the constructor of the destination's mutable proxy; the mutable view is used for those types)
+        if constexpr (MutView) { D d(gil::view(s), (std::size_t)da); emit("view-ctor", st, dt, w, h, sa, da, s, d); }
+        else { D d(gil::const_view(s), (std::size_t)da); emit("view-ctor", st, dt, w, h, sa, da, s, d); }
         { D d(w + 1, h + 2, (std::size_t)da); paint(d, rng); d = s; emit("assign", st, dt, w, h, sa, da, s, d); }
         { D d(w, h, (std::size_t)da); paint(d, rng); d = s; emit("assign-same-dims", st, dt, w, h, sa, da, s, d); }
     }
@@ -51,5 +57,10 @@ int main(int argc, char** argv) {
     vt::isolated([&] { pair<gil::rgb8_image_t, gil::rgb8_image_t>("rgb8", "rgb8"); pair<gil::rgb8_image_t, gil::rgb8_planar_image_t>("rgb8", "rgb8_planar"); pair<gil::rgb8_planar_image_t, gil::rgb8_image_t>("rgb8_planar", "rgb8"); }, 300);
     vt::isolated([&] { pair<gil::rgba8_image_t, gil::rgba8_planar_image_t>("rgba8", "rgba8_planar"); pair<gil::rgb8_planar_image_t, gil::rgb8_planar_image_t>("rgb8_planar", "rgb8_planar"); pair<gil::rgb8_image_t, gil::bgr8_image_t>("rgb8", "bgr8"); }, 300);
     vt::isolated([&] { pair<gil::gray8_image_t, gil::gray8_image_t>("gray8", "gray8"); pair<gil::rgb16_image_t, gil::rgb16_planar_image_t>("rgb16", "rgb16_planar"); }, 300);
+    using pk565_t = gil::packed_image3_type<std::uint16_t, 5, 6, 5, gil::rgb_layout_t>::type;
+    using ba565_t = gil::bit_aligned_image3_type<5, 6, 5, gil::rgb_layout_t>::type;
+    using ba332_t = gil::bit_aligned_image3_type<3, 3, 2, gil::bgr_layout_t>::type;
+    using ba1_t = gil::bit_aligned_image1_type<1, gil::gray_layout_t>::type;
+    vt::isolated([&] { pair<pk565_t, pk565_t>("pk565", "pk565"); pair<ba565_t, ba565_t, true>("ba565", "ba565"); pair<ba1_t, ba1_t, true>("ba1", "ba1"); pair<ba332_t, ba332_t, true>("ba332", "ba332"); }, 300);
     J("End").num("events", vt::T().events).emit(); vt::T().close(); return 0;
 }
